@@ -7,7 +7,56 @@ package main
 // minimal witness.  (The expectations live in the Lean model and in `classify`,
 // not here: a scenario only says what to do.)
 
-import "fmt"
+import (
+	"fmt"
+	"unsafe"
+
+	"github.com/zclconf/go-cty/cty"
+	"github.com/zclconf/go-cty/cty/set"
+)
+
+// c20setMirror has the layout of set.Set[interface{}] (cty/set/set.go).
+type c20setMirror struct {
+	vals  map[int][]interface{}
+	rules set.Rules[interface{}]
+}
+
+// c20oldCopy re-enacts Set.Copy as it was before /repo 877dbc3 (`ret.vals[k] = v`:
+// the copy's buckets are the receiver's slice headers) on the real types.
+func c20oldCopy(s cty.ValueSet) cty.ValueSet {
+	src := (*c20setMirror)(unsafe.Pointer(&s))
+	dst := c20setMirror{vals: map[int][]interface{}{}, rules: src.rules}
+	for k, v := range src.vals {
+		dst.vals[k] = v
+	}
+	return *(*cty.ValueSet)(unsafe.Pointer(&dst))
+}
+
+// c20regressionWitness: the predicate "a helper set changes only through its own
+// methods" has teeth — with the OLD Copy it fails on the scenario below (and the
+// model's C20.valueset_copy_add_old_counterexample is the same history).
+func c20regressionWitness(ctx *Ctx) {
+	unk := func(i int) cty.Value {
+		return cty.UnknownVal(cty.String).Refine().StringPrefixFull(fmt.Sprint("u", i)).NewValue()
+	}
+	s := cty.NewValueSet(cty.String)
+	for i := 0; i < 3; i++ {
+		s.Add(unk(i)) // one bucket (all unknowns hash alike), len 3 cap 4
+	}
+	c1, c2 := c20oldCopy(s), c20oldCopy(s)
+	c1.Add(unk(3))
+	before := c20vsetFP(c1)
+	c2.Add(unk(4))
+	after := c20vsetFP(c1)
+	ctx.Probe("regression-witness: the old Set.Copy (shared bucket arrays) is caught by the helper-set predicate", before != after,
+		"c1 := oldCopy(s); c2 := oldCopy(s); c1.Add(u3); c2.Add(u4) left c1 unchanged: "+before)
+	// and the current Copy passes the same history
+	n1, n2 := s.Copy(), s.Copy()
+	n1.Add(unk(3))
+	before = c20vsetFP(n1)
+	n2.Add(unk(4))
+	ctx.Probe("the current Set.Copy keeps copies independent on the same history", before == c20vsetFP(n1), before+" -> "+c20vsetFP(n1))
+}
 
 type c20Scen struct {
 	r    *c20Run
@@ -39,6 +88,7 @@ func (s *c20Scen) gomap(keys []string, vs ...int) int {
 }
 
 func c20scenarios(ctx *Ctx) {
+	c20regressionWitness(ctx)
 	// --- constructors: mutate the argument afterwards
 	{
 		s := newScen(ctx, "numberVal+setFloat")
